@@ -158,7 +158,7 @@ def run(ctx):
             ctx.violation(None, "an identity-hashed citation is equal to another object (or not to itself)", dict(stream="pairs", a=R.describe(a), b=R.describe(b)))
         if isinstance(a, CaseCitation) and isinstance(b, CaseCitation) and type(a) is type(b) and a.groups.get("page") and b.groups.get("page"):
             want = (a.groups.get("volume") == b.groups.get("volume") and a.groups["page"] == b.groups["page"]
-                    and a.corrected_reporter() == b.corrected_reporter())
+                    and R.norm_rep(a) == R.norm_rep(b))
             if e != want:
                 ctx.violation(None, "case citations equal although volume/page/normalised reporter differ (or vice versa)",
                               dict(stream="pairs", a=R.describe(a), b=R.describe(b)))
